@@ -92,6 +92,7 @@ type FuncContract struct {
 	Checks     []AnchoredAssert // return-time assertions over locals (not exported to callers)
 	Pure       bool             // assume func: result is a function of args only (deterministic)
 	Asserts    []AnchoredAssert
+	Dispatch   bool // method: its contract describes pure interface calls on boxed receivers (calls.go dispatchLink)
 }
 
 type AnchoredAssert struct {
@@ -163,7 +164,7 @@ type ContractFile struct {
 var directiveKW = map[string]bool{
 	"func": true, "assume": true, "spec": true, "ghost": true, "lemma": true, "pure": true,
 	"global": true, "model": true, "requires": true, "ensures": true, "assigns": true,
-	"loop": true, "inline": true, "abstract": true, "results": true, "trusted": true, "reads": true,
+	"loop": true, "inline": true, "dispatch": true, "abstract": true, "results": true, "trusted": true, "reads": true,
 	"induction": true, "let": true, "axiom": true, "deterministic": true, "trigger": true,
 	"assert": true, "use": true, "by": true, "fuel": true, "snapshot": true, "check": true, "witness": true,
 }
@@ -445,6 +446,12 @@ func parseContractFile(path, pkg string) (*ContractFile, error) {
 					return
 				}
 				cur.Inline = true
+			case "dispatch":
+				if cur == nil {
+					perr = fail(d, "dispatch outside func")
+					return
+				}
+				cur.Dispatch = true
 			case "deterministic":
 				if cur == nil {
 					perr = fail(d, "deterministic outside func")
@@ -779,6 +786,15 @@ func (l *lexer) parsePrimary() *CExpr {
 			e := l.parseExpr(0)
 			l.expectOp(")")
 			return &CExpr{Kind: "old", Args: []*CExpr{e}}
+		case "hastype": // hastype(e, T): the dynamic type of interface value e is T
+			if l.isOp("(") {
+				l.next()
+				e := l.parseExpr(0)
+				l.expectOp(",")
+				t := l.parseType()
+				l.expectOp(")")
+				return &CExpr{Kind: "hastype", Args: []*CExpr{e}, Vars: []QVar{{Type: t}}}
+			}
 		}
 		// struct literal: Name{...}
 		if l.isOp("{") {
@@ -861,6 +877,13 @@ func (l *lexer) parsePostfix(e *CExpr) *CExpr {
 			}
 		case l.isOp("."):
 			l.next()
+			if l.isOp("(") { // e.(T): the value boxed in an interface handle
+				l.next()
+				t := l.parseType()
+				l.expectOp(")")
+				e = &CExpr{Kind: "unbox", Args: []*CExpr{e}, Vars: []QVar{{Type: t}}}
+				continue
+			}
 			e = &CExpr{Kind: "field", Name: l.ident(), Args: []*CExpr{e}}
 		default:
 			return e
